@@ -12,14 +12,14 @@ RULE = ("part 'laws': links over all orientation pairs, distinct / self / hairpi
         "complement text equal to the model's; in half of the cases one operation of the CIGAR of the same Line object "
         "is then edited in place (length and code; also the CIGAR of the line complement() returned) and all laws are "
         "evaluated again for the edited link; part 'graph': a Gfa holding such links: adding the complement "
-        "(without ID, with the stored link's ID, or with an unused ID of its own) changes nothing and raises nothing, adding a link that differs in exactly one of {segment, one "
+        "(without ID, with the stored link's ID, or with an unused ID of its own; as text or as a Line object, which must stay unconnected and usable) changes nothing and raises nothing, adding a link that differs in exactly one of {segment, one "
         "orientation, specified overlap} adds exactly one dovetail, paths traversing a link forwards and as "
         "complement, arriving before or after the link, resolve to the stored link with the direction flag the "
         "model computes. non-trivial = overlap has an I or D (complement != identity) or the link is a hairpin")
 ASSUMPTIONS = [
     "S and N operations are outside the claim (the complement folds them onto D and I)",
     "a placeholder overlap acts as a wildcard in compatibility tests (documented); a placeholder and a specified overlap are never mixed on one end pair",
-    "for a hairpin link whose complement has the same segments and orientations the direction flag of a path step is not judged (both are right)",
+    "for a hairpin link whose complement has the same segments, orientations AND overlap (or a placeholder overlap) the direction flag of a path step is not judged (both are right)",
 ]
 INV = {"+": "-", "-": "+"}
 SEGS = ["A", "B", "C"]
@@ -131,7 +131,9 @@ def prop_graph(case):
     segs = ["S\t%s\t*\tLN:i:50" % s for s in SEGS]
     text = link_text(p, tags)
     mc = m_complement(p)
-    selfcomp = tuple(mc[:4]) == tuple(p[:4])
+    # a hairpin whose complement joins the same oriented ends: the direction is still defined
+    # by the overlap, unless the overlap is its own complement (or a placeholder)
+    selfcomp = tuple(mc[:4]) == tuple(p[:4]) and (p[4] == "*" or G.canon_cigar(mc[4]) == G.canon_cigar(p[4]))
     try:
         g = gfapy.Gfa(version="gfa1", vlevel=vlevel)
         # paths: forward and complement traversal; before or after the link
@@ -169,7 +171,20 @@ def prop_graph(case):
         ctags = list(case.get("ctags", []))
         if case.get("cid"):
             ctags.append(["ID", "Z", case["cid"]])
-        g.add_line(link_text(mc, ctags))
+        if case.get("c_instance"):
+            # given as a Line object: it is not stored, so it stays a free line the caller may
+            # offer again or give to another Gfa
+            inst = gfapy.Line(link_text(mc, ctags), version="gfa1", vlevel=vlevel)
+            g.add_line(inst)
+            if inst.is_connected() or inst.gfa is not None:
+                raise Violation("complement-instance-connected", "the complement %r given as a Line object was not stored but reports to be connected" % str(inst))
+            g.add_line(inst)
+            g3 = gfapy.Gfa(segs, version="gfa1", vlevel=vlevel)
+            g3.add_line(inst)
+            if len(g3.dovetails) != 1:
+                raise Violation("complement-instance-unusable", "the refused complement object could not be added to another Gfa")
+        else:
+            g.add_line(link_text(mc, ctags))
         after = O.observe(g)
         if after != before or str(g) != btxt:
             raise Violation("add-complement", "adding the complement changed the Gfa:\n%s\n%s" % (O.obs_diff(before, after), str(g)))
@@ -245,7 +260,7 @@ def st_graph(draw):
         tags.append(["ID", "Z", "lk1"])
     # the complement comes without ID, with the stored link's ID or with an ID of its own
     cid = gen.choice(r, [None, None, "lk1" if any(t[0] == "ID" for t in tags) else "lk2", "lk2"])
-    return {"link": p, "tags": tags, "cid": cid,
+    return {"link": p, "tags": tags, "cid": cid, "c_instance": gen.chance(r, 0.4),
             "ctags": gen.gen_tags(r, "gfa1", "L", True, maxn=1), "variants": variants(r, p),
             "order": toks, "vlevel": gen.choice(r, [0, 1, 1, 2, 3])}
 
